@@ -131,7 +131,7 @@ theorem get_designated (b : Bp) (ty : Nat) :
     ∀ rk ∈ (process b).routes,
       (rk.1, get (build (process b)) (process b).regs rk.2 ty) ∈ designated b ty := by
   have hw0 := walkOwn_wf b 0 {} wf_init (by decide)
-  obtain ⟨es, rs, ms, h1, h2, h3, h4, h5, h6, _, _, _⟩ := walkOwn_delta b 0 {}
+  obtain ⟨es, rs, ms, h1, h2, h3, h4, h5, h6, h7, h8, _, h10⟩ := walkOwn_delta b 0 {}
   -- the state after the root's own registrations and its fallback
   have hst0 : ((walkOwn b 0 {}).addScope 0).Wf := addScope_wf _ 0 hw0.1 hw0.1.pos
   generalize hs0 : (walkOwn b 0 {}).addScope 0 = st0 at hst0
@@ -191,6 +191,78 @@ theorem get_designated (b : Bp) (ty : Nat) :
     have := kids_designated ty b 0 st0 (kids b 0 st0) (ownLast b ty) hst0 hr0 hst0.pos hfin (Ext.refl _) henv rs'
       (by rw [hrs', hroutes0]) rk hrk
     exact this
+
+
+
+/-- **C04 — the blueprint decides, for middlewares too**: for every blueprint — arbitrary nesting, registrations in any order, before
+    or after the routes, several for one type — every middleware resolves every type to exactly what the
+    documented rule designates: the latest registration of the nearest enclosing blueprint that registers the type
+    (`designatedM`: a middleware sees what the blueprint it is registered against sees — not what the routes it wraps see). -/
+theorem get_designated_mw (b : Bp) (ty : Nat) :
+    ∀ rk ∈ (process b).mws,
+      (rk.1, get (build (process b)) (process b).regs rk.2 ty) ∈ designatedM b ty := by
+  have hw0 := walkOwn_wf b 0 {} wf_init (by decide)
+  obtain ⟨es, rs, ms, h1, h2, h3, h4, h5, h6, h7, h8, _, h10⟩ := walkOwn_delta b 0 {}
+  -- the state after the root's own registrations and its fallback
+  have hst0 : ((walkOwn b 0 {}).addScope 0).Wf := addScope_wf _ 0 hw0.1 hw0.1.pos
+  generalize hs0 : (walkOwn b 0 {}).addScope 0 = st0 at hst0
+  have hregs0 : st0.regs = (ownCtors b).map (fun c => (0, c)) := by
+    rw [← hs0]; simp only [St.addScope]; rw [h1]; rfl
+  have hroutes0 : st0.mws = ms := by
+    rw [← hs0]; simp only [St.addScope]; rw [h7]; rfl
+  have hedges0 : ∀ e ∈ es, e ∈ st0.edges := by
+    intro e he
+    rw [← hs0]; simp only [St.addScope]; rw [h2]; simp [he]
+  have hr0 : RegsLt st0 := by
+    intro r hr
+    rw [hregs0] at hr
+    simp only [List.mem_map] at hr
+    obtain ⟨c, _, rfl⟩ := hr
+    exact hst0.pos
+  have hproc : process b = kids b 0 st0 := by rw [← hs0]; rfl
+  have hfacts := kids_facts b 0 st0 hst0 hr0 hst0.pos
+  have hfin : (process b).Wf := process_wf b
+  rw [hproc] at hfin ⊢
+  have hlook : lookup st0.regs 0 ty = ownLast b ty := by
+    rw [hregs0]
+    have := lookup_own [] 0 (ownCtors b) ty rfl
+    rw [List.nil_append] at this
+    exact this
+  have henv : getF (kids b 0 st0) 0 ty = ownLast b ty := by
+    rw [getF_frozen hfacts.2 hst0 hfin 0 ty hst0.pos, getF_root st0 hst0 ty, hlook]
+  obtain ⟨rs', hrs'⟩ := hfacts.2.mws
+  intro rk hrk
+  rw [hrs', hroutes0] at hrk
+  simp only [designatedM, List.mem_append] at hrk ⊢
+  rcases hrk with hrk | hrk
+  · left
+    have hedge := hedges0 _ (h8 rk hrk)
+    have hk := (hst0.lt _ hedge).2
+    simp only at hk
+    have hnone : lookup st0.regs rk.2 ty = none := by
+      apply lookup_of_no_regs
+      rw [hregs0, List.filter_eq_nil_iff]
+      intro x hx hc
+      simp only [List.mem_map] at hx
+      obtain ⟨c, _, rfl⟩ := hx
+      simp only [beq_iff_eq] at hc
+      have := (h3 _ (h8 rk hrk)).2
+      simp only at this
+      have h00 : ({} : St).next = 1 := rfl
+      omega
+    have : getF (kids b 0 st0) rk.2 ty = ownLast b ty := by
+      rw [getF_frozen hfacts.2 hst0 hfin rk.2 ty hk, getF_parent st0 hst0 rk.2 0 ty hk (parents_of_edge hst0 hedge) hnone,
+        getF_root st0 hst0 ty, hlook]
+    show (rk.1, getF (kids b 0 st0) rk.2 ty) ∈ _
+    rw [this]
+    refine List.mem_map.mpr ⟨rk.1, ?_, rfl⟩
+    rw [← h10]
+    exact List.mem_map.mpr ⟨rk, hrk, rfl⟩
+  · right
+    have := kids_designated_m ty b 0 st0 (kids b 0 st0) (ownLast b ty) hst0 hr0 hst0.pos hfin (Ext.refl _) henv rs'
+      (by rw [hrs', hroutes0]) rk hrk
+    exact this
+
 
 
 /-- **C04 — no illicit copy between the middlewares of a stage**: when step 4 of the pipeline accepts a
@@ -284,7 +356,8 @@ example :
     (build st).parents 8 = [0, 3, 5] ∧ ancestors (build st) 7 = [7, 5, 0] ∧
     ((get (build st) st.regs 7 7).map (·.id), (get (build st) st.regs 4 7).map (·.id), (get (build st) st.regs 1 7).map (·.id),
       (get (build st) st.regs 6 7).map (·.id)) = (some 12, some 11, some 11, some 12) ∧
-    (designated b 7).map (fun x => (x.1, x.2.map (·.id))) = [(0, some 11), (1, some 12), (2, some 11)] := by decide
+    (designated b 7).map (fun x => (x.1, x.2.map (·.id))) = [(0, some 11), (1, some 12), (2, some 11)] ∧
+    (designatedM b 7).map (fun x => (x.1, x.2.map (·.id))) = [(0, some 12)] := by decide
 
 end Pxv.Scope
 
